@@ -78,7 +78,7 @@ def _rec_expected(fn, id_term):
 
 
 # -------------------------------------------------------------------- C01.1 ----
-def prim_syn_table(ctx, rid):
+def prim_syn_table(ctx, rid, strict_root=True):
     """K1: TypeDefPrimitive -> ::core::primitive::<lower>, Str -> <alloc>::string::String, 256-bit unimplemented"""
     hits = q.fns_with_match_on(ctx.P, is_prim, GEN, ret_pred=lambda o: o == "syn::Type")
     fn = q.anchor_fn(ctx, rid, "primitive table (match on TypeDefPrimitive in fn -> syn::Type)", hits)
@@ -106,10 +106,14 @@ def prim_syn_table(ctx, rid):
             ok = t[0] == "tpl" and t[1].startswith("parse_quote") and t[2] == "#0 :: string :: String"
             tys = [peel(e.get("ty", "")) for n, items, kind, _p in T.find_templates(arm["body"]) for e, info, _r in T.interps(items)]
             ok = ok and tys == ["typegen::settings::AllocCratePath"]
+            if not ok and not strict_root:
+                ok = t[0] == "tpl" and t[2] in (":: std :: string :: String", ":: alloc :: string :: String")
             ctx.expect(ok, rid, key, site(arm), "Str -> #alloc::string::String rooted at the AllocCratePath parameter",
                        "expected T[#alloc :: string :: String] with an AllocCratePath interpolation, found " + show(t) + " interp types " + str(tys))
             continue
-        exp = "T[:: core :: primitive :: %s]()" % v.lower()
+        exp = ["T[:: core :: primitive :: %s]()" % v.lower()]
+        if not strict_root:
+            exp += ["T[:: std :: primitive :: %s]()" % v.lower(), "T[%s]()" % v.lower()]
         expect_term(ctx, rid, key, arm, t, exp, "%s -> ::core::primitive::%s" % (v, v.lower()))
 
 
@@ -261,8 +265,9 @@ def cow_unwrap(ctx, rid):
 
 
 # ------------------------------------------------------------ C01.13 .. C01.20 ----
-def syn_arms(ctx, rid):
-    """K2+K4 on TypePathType::to_syn_type: per-variant templates and child conversions with the same alloc path"""
+def syn_arms(ctx, rid, strict_alloc=True):
+    """K2+K4 on TypePathType::to_syn_type: per-variant templates and child conversions with the same alloc path
+    (strict_alloc=False: which alloc path is threaded is not this property's concern)"""
     a = syn_fn(ctx, rid)
     if a is None:
         return
@@ -276,7 +281,7 @@ def syn_arms(ctx, rid):
             ctx.bad(rid, "syn-arm/" + v, site(m), "no explicit arm for TypePathType::%s in the syn conversion" % v)
     conv = "TypePath::to_syn_type"
     i_alloc = q.param_index(fn, lambda t: t.endswith("AllocCratePath"))
-    AP = "P%d" % i_alloc
+    AP = ("P%d" % i_alloc) if strict_alloc else ANY
 
     def C(x):
         return "%s(%s,%s)" % (conv, x, AP)
@@ -309,7 +314,7 @@ def syn_arms(ctx, rid):
     else:
         Nw = _norm(ctx, w)
         t = Nw.term(w["body"])
-        exp_w = "match(P0.0){TypePathInner::Parameter($)=>Type::Path(T[#0](P0.0@TypePathInner::Parameter.0));TypePathInner::Type($)=>TypePathType::to_syn_type(P0.0@TypePathInner::Type.0,P1)}"
+        exp_w = "match(P0.0){TypePathInner::Parameter($)=>Type::Path(T[#0](P0.0@TypePathInner::Parameter.0));TypePathInner::Type($)=>TypePathType::to_syn_type(P0.0@TypePathInner::Type.0,%s)}" % ("P1" if strict_alloc else ANY)
         expect_term(ctx, rid, "syn/wrapper", w["sp"], t, exp_w, "parameter -> its own tokens; concrete type -> conversion with the same alloc path")
     tp = [b for b in q.fn_by_suffix(ctx.P, "quote::ToTokens>::to_tokens", "scale_typegen") if "TypeParameter as" in b["path"] and "TypeParameters" not in b["path"]]
     if len(tp) == 1:
@@ -353,7 +358,7 @@ def prelude_fn(ctx, rid):
     return fn
 
 
-def prelude_table(ctx, rid, only_panic_discharge=False):
+def prelude_table(ctx, rid, only_panic_discharge=False, strict_root=True):
     """K1: prelude names -> paths; table ⊇ scale-info's prelude set (minus PhantomData, W5)"""
     a = prelude_fn(ctx, rid)
     if a is None:
@@ -391,12 +396,15 @@ def prelude_table(ctx, rid, only_panic_discharge=False):
         if k in ALLOC_CLASS:
             exp = "#0 :: %s :: %s" % (ALLOC_CLASS[k], k)
             ok = text == exp and show(t[3][0]) == "P%d" % i_alloc
+            if not strict_root and not ok:
+                # the same std type under another root: identity of the type is what matters here
+                ok = text in (":: std :: %s :: %s" % (ALLOC_CLASS[k], k), ":: alloc :: %s :: %s" % (ALLOC_CLASS[k], k))
         elif k in CORE_CLASS:
             exp = ":: core :: %s :: %s" % (CORE_CLASS[k], k)
-            ok = text == exp
+            ok = text == exp or (not strict_root and text == ":: std :: %s :: %s" % (CORE_CLASS[k], k))
         elif k.startswith("NonZero"):
             exp = ":: core :: num :: %s" % k
-            ok = text == exp
+            ok = text == exp or (not strict_root and text == ":: std :: num :: %s" % k)
         else:
             exp = "(a known root class)"
             ok = False
@@ -618,7 +626,7 @@ def item_templates(ctx, rid):
         expect_term(ctx, rid, "item/helper-" + nm, h["sp"], _norm(ctx, h).term(h["body"]), exp_h, "item %s taken from the struct / enum IR" % nm)
 
 
-def field_templates(ctx, rid):
+def field_templates(ctx, rid, strict_alloc=True):
     """K4+K5+K14: the four field emitters, compact attribute guard, marker with codec(skip), Box wrapper"""
     sf = q.fn1(ctx.P, "CompositeIR::struct_field_tokens", "scale_typegen")
     ef = q.fn1(ctx.P, "CompositeIR::enum_field_tokens", "scale_typegen")
@@ -660,6 +668,9 @@ def field_templates(ctx, rid):
     else:
         exp_b = ("if(P0.is_boxed){Extend::extend(P1,T[#0 :: boxed :: Box < #1 >](P2.alloc_crate_path,TypePath::to_syn_type(P0.type_path,P2.alloc_crate_path)))}"
                  "else{Extend::extend(P1,T[#0](TypePath::to_syn_type(P0.type_path,P2.alloc_crate_path)))}")
+        if not strict_alloc:
+            exp_b = [exp_b, ("if(P0.is_boxed){Extend::extend(P1,T[%s :: boxed :: Box < #%s >](%sTypePath::to_syn_type(P0.type_path,%s)))}"
+                             "else{Extend::extend(P1,T[#0](TypePath::to_syn_type(P0.type_path,%s)))}") % (ANY, ANY, ANY, ANY, ANY)]
         expect_term(ctx, rid, "fields/box-wrap", bw[0]["sp"], _norm(ctx, bw[0]).term(bw[0]["body"]), exp_b,
                     "`<alloc>::boxed::Box<ty>` iff is_boxed, else `ty`; ty converted with the settings' alloc path")
 
